@@ -11,6 +11,7 @@ import itertools, os, sys
 sys.path.insert(0, os.path.dirname(os.path.abspath(__file__)))
 from common import hexs, rng
 import store as S
+import storecontract
 
 FAMILY = "iter"
 HARNESS = {"source": "x_iter.c", "leak_clean": True, "extra_sources": ["x_store_body.h", "cifio.h"]}
@@ -275,7 +276,11 @@ def nontrivial(req, impl):
 def classify(req, impl):
     ops = req.split(" ")
     n = sum(1 for t in ops if t in ("itnext", "itupd", "itrem"))
-    return "calls=%d %s" % (n, "abort" if "itabort" in ops else "close")
+    return "calls=%d %s %s" % (n, "abort" if "itabort" in ops else "close", storecontract.label(req))
+
+
+def model_request(req, impl):
+    return storecontract.record(req)
 
 
 def finding_class(req, impl, model, why):
